@@ -2339,3 +2339,280 @@ func c12R6(c *Ctx, r *Report) {
 	r.Check(guarded, rule, fn.Name(), "foreign struct types with private fields are not converted", c.pos(fn.Decl.Pos()),
 		"`lib::NewAccount() as Acct` with a structurally identical local type type-checks, and a method of Acct then reads the private field lib::Account.balance")
 }
+
+// ---- C09.R6: `if true { }` is transparent for the return analysis ----------------------------------------------
+
+func init() {
+	lateInits = append(lateInits, func() {
+		props["C09"].Quick = append(props["C09"].Quick, c09R6)
+		props["C05"].Quick = append(props["C05"].Quick, c09R6)
+		props["C09"].Explanation += " (R6) buildIf has a branch for a literal-true condition without else that adds no edge around the body, and that declares the continuation unreachable only when the body cannot fall through."
+	})
+}
+
+func c09R6(c *Ctx, r *Report) {
+	const rule = "C09.R6"
+	r.Describe(rule, "hir/analysis buildIf: an `isLiteralTrue(stmt.Cond)` branch exists in the no-else region; it contains no addEdge from the condition block; its `return nil` is guarded by a test of the body's CanFallThru")
+	fn := c.LookupFn(pkgHIRAn, "(*CFGBuilder).buildIf")
+	isLit := c.LookupFn(pkgHIRAn, "isLiteralTrue")
+	addEdge := c.LookupFn(pkgHIRAn, "addEdge")
+	if !r.Anchor(rule, fn != nil && isLit != nil && addEdge != nil, "hir/analysis buildIf / isLiteralTrue / addEdge") {
+		return
+	}
+	info := fn.Info()
+	var branch *ast.IfStmt
+	ast.Inspect(fn.Decl.Body, func(x ast.Node) bool {
+		if ifs, ok := x.(*ast.IfStmt); ok {
+			if cl, ok := ast.Unparen(ifs.Cond).(*ast.CallExpr); ok && isCallTo(info, cl, isLit.Obj) {
+				branch = ifs
+			}
+		}
+		return true
+	})
+	if branch == nil {
+		r.Fail(rule, fn.Name(), "`if true { }` without else does not add a path around its body", c.pos(fn.Decl.Pos()),
+			"buildIf always adds the edge condition -> continuation when there is no else: `fn f() -> i32 { if true { return 1; } }` is rejected ('not all code paths return') although `fn f() -> i32 { return 1; }` is accepted")
+		return
+	}
+	skips := false
+	for _, cl := range callsIn(branch.Body, false) {
+		if isCallTo(info, cl, addEdge.Obj) && len(cl.Args) == 2 && exprStr(cl.Args[0]) == "current" {
+			skips = true
+		}
+	}
+	r.Check(!skips, rule, fn.Name(), "`if true { }` without else does not add a path around its body", c.pos(branch.Pos()),
+		"the literal-true branch still connects the condition block to the continuation")
+	// return nil only when the body cannot fall through
+	okRet := true
+	walkWithStack(branch.Body, func(x ast.Node, stack []ast.Node) bool {
+		ret, ok := x.(*ast.ReturnStmt)
+		if !ok || len(ret.Results) != 1 || exprStr(ret.Results[0]) != "nil" {
+			return true
+		}
+		guarded := false
+		for _, a := range stack {
+			if ifs, ok := a.(*ast.IfStmt); ok && strings.Contains(exprStr(ifs.Cond), "CanFallThru") && containsNode(ifs.Body, ret) {
+				guarded = true
+			}
+		}
+		if !guarded {
+			okRet = false
+		}
+		return true
+	})
+	r.Check(okRet, rule, fn.Name(), "the continuation is declared unreachable only when the body cannot fall through", c.pos(branch.Pos()),
+		"`if true { if x > 0 { return 1; } }` would count as returning on all paths: the function falls off its end for x <= 0")
+}
+
+// ---- C09.R7: compile-time constants reach code generation in literal form ---------------------------------------
+
+func init() {
+	lateInits = append(lateInits, func() {
+		props["C09"].Quick = append(props["C09"].Quick, c09R7)
+		props["C09"].Explanation += " (R7) MIR lowering turns a compile-time constant into operand text through a helper that takes a string constant's value (AsString); the display form ConstValue.String(), which quotes strings, is not used elsewhere in mir/gen."
+	})
+}
+
+func c09R7(c *Ctx, r *Report) {
+	const rule = "C09.R7"
+	r.Describe(rule, "mir/gen: a call of ConstValue.String() (symbols.ConstValue / consteval.ConstValue) occurs only in a function that first tries AsString() on the value")
+	n := 0
+	for _, fn := range c.AllFns(pkgMIRGen) {
+		info := fn.Info()
+		hasAsString := false
+		for _, cl := range callsIn(fn.Decl.Body, true) {
+			if f := callee(info, cl); f != nil && f.Name() == "AsString" {
+				hasAsString = true
+			}
+		}
+		for _, cl := range callsIn(fn.Decl.Body, true) {
+			sel, ok := ast.Unparen(cl.Fun).(*ast.SelectorExpr)
+			if !ok || sel.Sel.Name != "String" || len(cl.Args) != 0 {
+				continue
+			}
+			t := info.TypeOf(sel.X)
+			if t == nil {
+				continue
+			}
+			nt := namedOf(t)
+			if nt == nil || nt.Obj().Name() != "ConstValue" {
+				continue
+			}
+			n++
+			r.Check(hasAsString, rule, fn.Name(), "ConstValue.String() of "+exprStr(sel.X)+" only after AsString", c.pos(cl.Pos()),
+				"the display form of a constant is used as operand text: a string constant arrives with its quotes, so `const K: str = \"hi\"; match s { K => … }` compares s with \"\\\"hi\\\"\" and never matches, while the literal pattern \"hi\" does")
+		}
+	}
+	r.Floor(rule, n, 1, "ConstValue.String() calls in mir/gen")
+}
+
+// ---- C09.R8: no element of a literal is skipped -------------------------------------------------------------------
+
+func init() {
+	lateInits = append(lateInits, func() {
+		props["C09"].Quick = append(props["C09"].Quick, c09R8)
+		props["C09"].Explanation += " (R8) MIR lowering never lowers a single picked element `x.Elts[k]` of a composite literal outside a loop over all elements: every element expression is evaluated."
+	})
+}
+
+func c09R8(c *Ctx, r *Report) {
+	const rule = "C09.R8"
+	r.Describe(rule, "mir/gen: lowerExpr is applied to an element of CompositeLit.Elts only inside a for/range statement over that Elts slice (all elements are evaluated, in order)")
+	le := c.LookupFn(pkgMIRGen, "(*functionBuilder).lowerExpr")
+	if !r.Anchor(rule, le != nil, "mir/gen lowerExpr") {
+		return
+	}
+	n := 0
+	for _, fn := range c.AllFns(pkgMIRGen) {
+		info := fn.Info()
+		defs := localDefs(fn)
+		eltsIndex := func(e ast.Expr) *ast.IndexExpr {
+			if ix, ok := ast.Unparen(e).(*ast.IndexExpr); ok {
+				if sel, ok := ast.Unparen(ix.X).(*ast.SelectorExpr); ok && sel.Sel.Name == "Elts" {
+					return ix
+				}
+			}
+			return nil
+		}
+		walkWithStack(fn.Decl.Body, func(x ast.Node, stack []ast.Node) bool {
+			cl, ok := x.(*ast.CallExpr)
+			if !ok || !isCallTo(info, cl, le.Obj) || len(cl.Args) != 1 {
+				return true
+			}
+			ix := eltsIndex(cl.Args[0])
+			if ix == nil {
+				if o := objOf(info, cl.Args[0]); o != nil {
+					for _, d := range defs[o] {
+						if dx := eltsIndex(d); dx != nil && d.Pos() < cl.Pos() {
+							ix = dx
+						}
+					}
+				}
+			}
+			if ix == nil {
+				return true
+			}
+			n++
+			inLoop := false
+			for _, a := range stack {
+				switch s := a.(type) {
+				case *ast.RangeStmt:
+					if strings.HasSuffix(exprStr(s.X), ".Elts") {
+						inLoop = true
+					}
+				case *ast.ForStmt:
+					if s.Cond != nil && strings.Contains(exprStr(s.Cond), ".Elts") {
+						inLoop = true
+					}
+				}
+			}
+			r.Check(inLoop, rule, fn.Name(), "element "+exprStr(ix)+" is lowered as part of a loop over all elements", c.pos(cl.Pos()),
+				"only the selected element of the literal is evaluated: `[f(), g()][0]` never calls g(), while `let t := [f(), g()]; t[0]` calls both")
+			return true
+		})
+	}
+	r.Note("%s: %d single-element lowerings inspected", rule, n)
+}
+
+// ---- C10.R7: literal-only integer expressions are folded before narrowing ---------------------------------------
+
+func init() {
+	lateInits = append(lateInits, func() {
+		props["C10"].Quick = append(props["C10"].Quick, c10R7)
+		props["C09"].Quick = append(props["C09"].Quick, c10R7)
+		props["C10"].Explanation += " (R7) a binary expression built from integer literals only is emitted as one constant of the expression's type (the value the type checker range-checked); the predicate that selects such expressions admits literals, parentheses, unary minus and arithmetic operators only, so no variable's flow-insensitive value takes part."
+	})
+}
+
+func c10R7(c *Ctx, r *Report) {
+	const rule = "C10.R7"
+	r.Describe(rule, "mir/gen lowerExpr, case BinaryExpr: before the operands are lowered a helper is tried that evaluates the expression with consteval.EvaluateHIRExpr and emits it with emitConst/emitLargeConst; the helper is guarded by a predicate whose type switch has cases for Literal, ParenExpr, UnaryExpr and BinaryExpr only")
+	le := c.LookupFn(pkgMIRGen, "(*functionBuilder).lowerExpr")
+	ec := c.LookupFn(pkgMIRGen, "(*functionBuilder).emitConst")
+	if !r.Anchor(rule, le != nil && ec != nil, "mir/gen lowerExpr / emitConst") {
+		return
+	}
+	info := le.Info()
+	var clause *ast.CaseClause
+	ast.Inspect(le.Decl.Body, func(x ast.Node) bool {
+		if cc, ok := x.(*ast.CaseClause); ok && clause == nil {
+			for _, t := range caseTypes(info, cc) {
+				if nt := namedOf(t); nt != nil && nt.Obj().Name() == "BinaryExpr" {
+					clause = cc
+				}
+			}
+		}
+		return true
+	})
+	if !r.Anchor(rule, clause != nil, "lowerExpr: case *hir.BinaryExpr") {
+		return
+	}
+	var firstLower token.Pos
+	var helper *Fn
+	var helperPos token.Pos
+	for _, st := range clause.Body {
+		for _, cl := range callsIn(st, false) {
+			if isCallTo(info, cl, le.Obj) && firstLower == token.NoPos {
+				firstLower = cl.Pos()
+			}
+			if hf := c.FnOf(callee(info, cl)); hf != nil && hf.Decl != nil && hf.Decl.Body != nil && hf.Obj != le.Obj && helper == nil {
+				evals, emits := false, false
+				for _, c2 := range callsIn(hf.Decl.Body, false) {
+					if g := callee(hf.Info(), c2); g != nil {
+						if g.Name() == "EvaluateHIRExpr" {
+							evals = true
+						}
+						if g == ec.Obj {
+							emits = true
+						}
+					}
+				}
+				if evals && emits {
+					helper, helperPos = hf, cl.Pos()
+				}
+			}
+		}
+	}
+	r.Check(helper != nil && helperPos < firstLower, rule, le.Name(), "literal-only integer expressions are folded before the operands are lowered", c.pos(clause.Pos()),
+		"the operands of `600 / 3` are lowered one by one in the type of the context: in a u8 context 600 becomes 88 and `x + (600 / 3)` yields x + 29, although the type checker accepted the expression because its value 200 fits u8")
+	if helper == nil {
+		return
+	}
+	// the purity predicate
+	hinfo := helper.Info()
+	var pred *Fn
+	for _, cl := range callsIn(helper.Decl.Body, false) {
+		if pf := c.FnOf(callee(hinfo, cl)); pf != nil && pf.Decl != nil && pf.Decl.Body != nil && pf.Obj.Pkg() == helper.Obj.Pkg() {
+			sig := pf.Obj.Type().(*types.Signature)
+			if sig.Results().Len() == 1 && sig.Params().Len() == 1 {
+				if b, ok := sig.Results().At(0).Type().Underlying().(*types.Basic); ok && b.Kind() == types.Bool {
+					if pn := namedOf(sig.Params().At(0).Type()); pn != nil && pn.Obj().Name() == "Expr" {
+						pred = pf
+					}
+				}
+			}
+		}
+	}
+	if !r.Anchor(rule, pred != nil, "folding helper: literal-only predicate") {
+		return
+	}
+	pinfo := pred.Info()
+	allowed := map[string]bool{"Literal": true, "ParenExpr": true, "UnaryExpr": true, "BinaryExpr": true}
+	bad := ""
+	nCases := 0
+	ast.Inspect(pred.Decl.Body, func(x ast.Node) bool {
+		if ts, ok := x.(*ast.TypeSwitchStmt); ok {
+			for _, cc := range caseClauses(ts.Body) {
+				for _, t := range caseTypes(pinfo, cc) {
+					nCases++
+					if nt := namedOf(t); nt == nil || !allowed[nt.Obj().Name()] {
+						bad = types.TypeString(t, nil)
+					}
+				}
+			}
+		}
+		return true
+	})
+	r.Check(bad == "" && nCases >= 2, rule, pred.Name(), "only literals, parentheses, unary and binary operators are folded", c.pos(pred.Decl.Pos()),
+		"the folding predicate admits "+bad+": a variable's compile-time value is flow-insensitive (see the C04.R1 findings), so folding it replaces a run-time value by a stale constant")
+}
